@@ -254,6 +254,14 @@ struct Env {
     r += ((x) >= (LHS)) ? '1' : '0'; \
   } while (0)
 
+#define HXS_CMP4(r, LHS, x)         \
+  do {                              \
+    r += ((LHS) == (x)) ? '1' : '0'; \
+    r += ((LHS) < (x)) ? '1' : '0';  \
+    r += ((x) == (LHS)) ? '1' : '0'; \
+    r += ((x) >= (LHS)) ? '1' : '0'; \
+  } while (0)
+
 // everything the public read API says about one string-holding value (isLinked() excluded on purpose)
 inline void extString(Env& E, JsonVariantConst v, std::string& o) {
   char b[256];
@@ -719,15 +727,15 @@ inline void u_compare(Env& E) {
           JsonVariant v = doc["k"];
           HXS_CMP12(r, cv, x);
           r += '/';
-          HXS_CMP12(r, v, x);
-          r += '/';
           HXS_CMP12(r, doc["k"], x);
+          r += '/';
+          HXS_CMP4(r, v, x);
           r += "/n";
-          HXS_CMP12(r, doc["n"], x);
+          HXS_CMP4(r, doc["n"], x);
           r += "/i";
-          HXS_CMP12(r, doc["i"], x);
+          HXS_CMP4(r, doc["i"], x);
           r += "/u";
-          HXS_CMP12(r, doc["missing"], x);
+          HXS_CMP4(r, doc["missing"], x);
         });
         E.after();
         E.src = src;
@@ -735,7 +743,7 @@ inline void u_compare(Env& E) {
         // absolute clause for equality only: equal iff the bytes are identical (ordering is C18's business)
         bool same = S[t].bytes == s;
         const char* wantEq = same ? "10" : "01";
-        for (size_t base : {size_t(0), size_t(6), size_t(13), size_t(19), size_t(26), size_t(32)})
+        for (size_t base : {size_t(0), size_t(6), size_t(13), size_t(19)})
           if (r.compare(base, 2, wantEq) != 0)
             E.problem("compare-eq", "variant holding " + S[t].name + (linked ? " (linked)" : " (copied)") + ": == / != answered " + r.substr(base, 2) + " at position " + std::to_string(base) + " of " + r);
         if (same) E.outcome = "equal";
@@ -805,7 +813,14 @@ struct UseDef {
   bool withinLimitOnly;  // not defined for the over-long string
   bool nulFreeOnly;
 };
+// The translation unit can be built in parts (-DHXS_PART=1..3) so that the job builds run in parallel:
+// 1 = value and key uses, 2 = lookup uses, 3 = comparison, copy paths and the sharing grid; 0 = everything.
+#ifndef HXS_PART
+#define HXS_PART 0
+#endif
+#define HXS_IN(part) (HXS_PART == 0 || HXS_PART == part)
 static const UseDef kUses[] = {
+#if HXS_IN(1)
     {"v.docSet", u_docSet, false, false},           {"v.varSet", u_varSet, false, false},
     {"v.docAdd", u_docAdd, false, false},           {"v.arrAdd", u_arrAdd, false, false},
     {"v.varAdd", u_varAdd, false, false},           {"v.arrAddTwice", u_arrAddTwice, false, false},
@@ -819,6 +834,8 @@ static const UseDef kUses[] = {
     {"k.keyAndValue", u_keyAndValue, false, false}, {"k.toArray", u_keyToArray, false, false},
     {"k.docAdd", u_keyDocAdd, false, false},        {"k.existingCopied", u_keyExistingCopied, true, false},
     {"k.existingLinked", u_keyExistingLinked, true, true},
+#endif
+#if HXS_IN(2)
     {"l.doc", u_lkDoc, false, false},               {"l.constDoc", u_lkConstDoc, false, false},
     {"l.obj", u_lkObj, false, false},               {"l.constObj", u_lkConstObj, false, false},
     {"l.var", u_lkVar, false, false},               {"l.constVar", u_lkConstVar, false, false},
@@ -829,10 +846,14 @@ static const UseDef kUses[] = {
     {"l.varContains", u_lkVarContains, false, false},
     {"l.constVarContains", u_lkConstVarContains, false, false},
     {"l.docRemove", u_lkDocRemove, false, false},   {"l.objRemove", u_lkObjRemove, false, false},
-    {"l.varRemove", u_lkVarRemove, false, false},   {"c.operand", u_compare, false, false},
+    {"l.varRemove", u_lkVarRemove, false, false},
+#endif
+#if HXS_IN(3)
+    {"c.operand", u_compare, false, false},
     {"d.copyCtor", u_copyCtor, true, false},        {"d.copyAssign", u_copyAssign, true, false},
     {"d.docSetDoc", u_copyDocSet, true, false},     {"d.moveAssign", u_copyMove, true, false},
     {"d.memberwise", u_copyMembers, true, false},   {"d.within", u_copyWithin, false, false},
+#endif
 };
 static const size_t kNUses = sizeof(kUses) / sizeof(kUses[0]);
 
@@ -1169,17 +1190,19 @@ inline void run(Ctx& C) {
       }
     }
   }
+#if HXS_IN(3)
   if (phase.find('B') != std::string::npos) {
     std::vector<int> rots;
     if (T) for (int r = 0; r < 28; r++) rots.push_back(r);
     else rots = {0, 3};
     phaseB(C, strings, T ? 3 : 2, rots);
   }
+#endif
   C.bound(std::string("strings {empty,a,ab,a\\0b,\\x80\\xff,42,-7.5,1e3,3.25,12345678901234567890,' 1',true,31 bytes,32 bytes") +
           (T ? ",65535 bytes,65536 bytes (refusal only)}" : "}") +
           " x 11 source kinds {literal,const char*,char*,char[N],std::string,string_view,JsonString Copied,JsonString(p,Linked),"
-          "JsonString(p),Arduino String,flash} x " + std::to_string(kNUses) + " uses (14 value, 10 key, 16 lookup x 4 populations, "
-          "12 comparison operators x 2 sides x 5 variant flavours x operand set, 6 copy paths) x {plain, source overwritten, source destroyed}; "
+          "JsonString(p),Arduino String,flash} x 47 uses over three jobs (14 value, 10 key, 16 lookup x 4 populations, "
+          "12 comparison operators x 2 sides on JsonVariantConst and MemberProxy (4 on JsonVariant, null, integer and unbound operands) x operand set, 6 copy paths) x {plain, source overwritten, source destroyed}; "
           "sharing grid: " + (T ? "2..3" : "2") + " users x 5 roles x 9 mutations x " + (T ? "28 kind rotations (7 for the 65535-byte string)" : "2 kind rotations"));
 }
 
